@@ -278,9 +278,19 @@ def b3(fb, chk):
     chk.check(bool(good_other), "B3", "ack-helper:value:other", "other errors -> -EINVAL",
               "ack value for other errors is %s" % sorted({(c, s_) for c, _h, _n, s_ in errv}), ackf.loc())
     # reply header of the ack: REPLY, request's code, size_of::<u64>
-    for g in fb.find(name="new_reply_header", self_adt="FrontendReqHandler"):
-        mg = must_of(fb, g)
-        for bb, t, c in sites(g, name="new"):
-            a = mg.sym.arg_terms(bb)
-            ok = const_eval(fb, mg.sym, a[1]) == wire.FLAG_REPLY and "get_code(req)" in show(a[0]) and "size_of()" in show(a[2])
-            chk.check(ok, "B3", "ack-header", "ack header: request's code, REPLY, size_of body", "ack header built from %s" % [show(x)[:40] for x in a], g.loc(t["line"]))
+    from . import headers
+    for g in fb.find(self_adt="FrontendReqHandler"):
+        if g.trait or g.name == "new" or "MsgHeader" not in (g.rec.get("sig_out") or ""):
+            continue
+        hs = headers.built_headers(fb, g)
+        names = g.arg_names()
+        probs = set()
+        for h in hs:
+            if h["flags_value"] != (wire.FLAG_REPLY | wire.FLAG_VERSION):
+                probs.add("flags %s" % (hex(h["flags_value"]) if h["flags_value"] is not None else show(h["flags"])[:50]))
+            if not headers.from_request(h["request"], names[1]):
+                probs.add("code %s" % show(h["request"])[:50])
+            if h["size"] is None or not any(x[0] == "call" and x[1] == "size_of" for x in subterms(h["size"])):
+                probs.add("size %s" % (show(h["size"])[:40] if h["size"] is not None else None))
+        chk.check(bool(hs) and not probs, "B3", "ack-header", "ack header: request's code, flags 0x5, size_of body",
+                  "ack header built with %s" % sorted(probs), g.loc())
